@@ -24,6 +24,12 @@ type structType struct {
 	fieldInfos []structFieldInfo // 偏移量对应的字段信息内容
 }
 
+// structTypeKey 缓存 structType 的 key
+type structTypeKey struct {
+	ty        reflect.Type
+	targetTag string
+}
+
 // structFieldInfo 结构体字段信息
 type structFieldInfo struct {
 	export     bool   // 是否可导出
@@ -231,7 +237,9 @@ func (v *VStruct) validate(structName string, value reflect.Value, isValidGather
 
 // getCacheStructType 获取缓存中的 reflect.Type
 func (v *VStruct) getCacheStructType(ty reflect.Type) structType {
-	if obj, ok := cacheStructType.Load(ty); ok {
+	// 缓存的验证规则取自 targetTag, 所以 targetTag 也是 key 的一部分
+	cacheKey := structTypeKey{ty: ty, targetTag: v.targetTag}
+	if obj, ok := cacheStructType.Load(cacheKey); ok {
 		return obj.(structType)
 	}
 
@@ -251,7 +259,7 @@ func (v *VStruct) getCacheStructType(ty reflect.Type) structType {
 		}
 		obj.fieldInfos[fieldNum] = info
 	}
-	cacheStructType.Store(ty, obj)
+	cacheStructType.Store(cacheKey, obj)
 	return obj
 }
 
